@@ -132,6 +132,7 @@ def r08_3(ctx) -> None:
     init = info.methods["__init__"]
     src = f"{init.short}:{init.param_names()[1]}"
     paths = enumerate_paths(cfg, cfg.entry, lambda n: n is cfg.exit)
+    helper = c07.close_helper(ctx)
     ctx.check(bool(paths), "R08.3", u, "__aexit__", "__aexit__ has a normal path")
     for path in paths:
         nodes = [n for n, _l in path]
@@ -141,7 +142,7 @@ def r08_3(ctx) -> None:
             v = ctx.vals.expr(u, a.info.get("value"), a)
             if any(x[0] == "userawait" and x[1] == src for x in v) and "aclose" in norm(a.ast):
                 kinds.append("real")
-            elif any(x[0] == "libcoro" and x[1].endswith("_aclose_wrapper") for x in v):
+            elif helper is not None and any(x[0] == "libcoro" and x[1].endswith("." + helper.node.name) for x in v):
                 kinds.append("wrapper")
             else:
                 kinds.append("other")
